@@ -3,7 +3,7 @@
    env_upper / env_lower / fill_line / decreasing_line / adjust_cases are the code-faithful models (model/Cdf.v) of
    cdf_envelope, fill_cdf, decreasing_cdfs and adjust_fcst_for_crps on one line (= one forecast case along the
    threshold dimension).  upperQ / lowerQ are the same computations on NaN-free rational lines; fin_of drops NaN. *)
-From V Require Import lib.Tree model.Cdf proofs.C17.
+From V Require Import lib.Tree model.Cdf proofs.C17 proofs.C17_tools.
 Open Scope Q_scope.
 
 (* ---- cdf_envelope: NaN-free lines ---- *)
@@ -159,3 +159,48 @@ Example C17_example_envelope :
   decreasing_line (1#10) (fins [0; 2#5; 3#10; 9#10; 22#25; 1]) = true /\
   decreasing_line (3#25) (fins [0; 2#5; 3#10; 9#10; 22#25; 1]) = false.
 Proof. vm_compute. repeat split; repeat constructor. Qed.
+
+(* ---- propagate_nan, observed_cdf, round_values "do what their names say" ---- *)
+Theorem C17_propagate_nan_char : forall l,
+  (In XNaN l -> propagate_nan_m l = map (fun _ => XNaN) l) /\
+  (~ In XNaN l -> propagate_nan_m l = l) /\
+  length (propagate_nan_m l) = length l /\
+  propagate_nan_m (propagate_nan_m l) = propagate_nan_m l.
+Proof. exact propagate_char. Qed.
+Print Assumptions C17_propagate_nan_char.
+
+Theorem C17_observed_cdf_char : forall o grid,
+  length (observed_cdf_line o grid) = length grid /\
+  (o = XNaN -> observed_cdf_line o grid = map (fun _ => XNaN) grid) /\
+  (forall y, o = XFin y -> observed_cdf_line o grid = map (fun g => if Qle_bool y g then XFin 1 else XFin 0) grid).
+Proof. exact observed_cdf_char. Qed.
+Print Assumptions C17_observed_cdf_char.
+
+(* first step of round_values: an integer multiple of the precision, at most half a precision away, and no other multiple
+   is closer; numpy's round-half-to-even decides exact ties *)
+Theorem C17_round_to_nearest_multiple : forall p x, 0 < p ->
+  exists k : Z, round_to p x == inject_Z k * p /\ Qabs (round_to p x - x) <= p / 2 /\
+                forall k' : Z, Qabs (round_to p x - x) <= Qabs (inject_Z k' * p - x).
+Proof. exact round_to_char. Qed.
+Print Assumptions C17_round_to_nearest_multiple.
+
+Theorem C17_round_ties_to_even : forall x, x - inject_Z (Qfloor x) == 1 # 2 -> Z.even (round_half_even x) = true.
+Proof. exact round_half_even_tie_even. Qed.
+Print Assumptions C17_round_ties_to_even.
+
+Theorem C17_round_values_char : forall p fin v,
+  (p == 0 -> round_values_m p fin v = v) /\
+  (forall x, 0 < p -> v = XFin x -> round_values_m p false v = XFin (round_to p x)) /\
+  (match v with XFin _ => True | _ => round_values_m p fin v = v end).
+Proof. exact round_values_char. Qed.
+Print Assumptions C17_round_values_char.
+
+Theorem C17_round_values_final_round_is_small : forall p x, 0 < p ->
+  exists y, round_values_m p true (XFin x) = XFin y /\ Qabs (y - round_to p x) <= 1 # 20000000.
+Proof. exact round_values_final_close. Qed.
+Print Assumptions C17_round_values_final_round_is_small.
+
+Example C17_round_nonvacuous :
+  round_values_m (1 # 5) false (XFin (373 # 100)) = XFin (round_to (1#5) (373#100)) /\ round_to (1 # 5) (373 # 100) == 19 # 5 /\
+  round_to 20 (373 # 10) == 40 /\ round_half_even (5 # 2) = 2%Z /\ round_half_even (7 # 2) = 4%Z.
+Proof. repeat split; vm_compute; reflexivity. Qed.
